@@ -229,7 +229,7 @@ def trace_monitors(res, rng, tier):
             sc['side'] = 'long'
         out = E.run_session({'BTC-USDT': cs}, [('BTC-USDT', rng.choice(['1m', '3m', '5m']))], scripts={'BTC-USDT': sc}, exchange_type=typ,
                             leverage=rng.choice([1, 2, 5]), fee=rng.choice([0.0, 0.001]), fast=rng.random() < 0.3)
-        if out['error'] and 'InvalidStrategy' not in out['error'] and 'Insufficient' not in out['error'] and 'OrderNotAllowed' not in out['error']:
+        if out['error'] and not E.benign_error(out['error']):
             bad.append({'clause': 'session_error', 'error': out['error'], 'script': sc})
             continue
         tr = out['trace']
